@@ -81,6 +81,10 @@ def facts_dir(profile='dev', repo=REPO, log=sys.stderr):
     with open(os.path.join(CACHE, 'lock.' + profile), 'w') as lk:
         fcntl.flock(lk, fcntl.LOCK_EX)
         if _complete(out) and not no_cache:
+            try:
+                os.utime(out, None)
+            except OSError:
+                pass
             return out
         ensure_driver()
         t0 = time.time()
@@ -128,7 +132,7 @@ def facts_dir(profile='dev', repo=REPO, log=sys.stderr):
         return out
 
 
-def _gc(keep=6):
+def _gc(keep=12):
     root = os.path.join(CACHE, 'facts')
     ds = [os.path.join(root, d) for d in os.listdir(root)]
     ds.sort(key=lambda d: os.path.getmtime(d), reverse=True)
